@@ -4,7 +4,7 @@
 wt=$1; n=$2
 cd "$wt" || exit 2
 git checkout -q -- . ; rm -f tests/seed_demo_verify.rs
-export CARGO_NET_OFFLINE=true CARGO_TARGET_DIR=/tmp/seed_target
+export CARGO_NET_OFFLINE=true CARGO_TARGET_DIR=${SEED_TARGET:-$wt/target}
 cp _seed/$n/demo.rs tests/seed_demo_verify.rs
 nopatch=$(cargo test --offline --test seed_demo_verify 2>&1 | grep -E '^test result' | tail -1)
 git apply _seed/$n/patch.diff || { echo "PATCH DOES NOT APPLY"; exit 1; }
